@@ -17,7 +17,9 @@ CHECKS = {
        "of the driver loop with no bound on the number of tests. The hand-written driver model is tied to the "
        "code by running model (extracted to OCaml) and implementation on the same inputs and verdict histories "
        "and diffing complete event traces (exhaustive DFS over verdict sequences on small inputs, all 7 "
-       "strategies + move; random beyond).",
+       "strategies + move; random beyond). C01_session_final_is_last_accepted proves the same for a following run() on "
+       "a RE-USED Lithium object (any previous world: counters, temp dir, stale last_interesting); the harness runs "
+       "consecutive runs on one Lithium / testcase / strategy object and injects transient write faults.",
   note=TB + "Assumes content(tc0) = bytes on disk (proved as C06 for the loaders); the test sees only file/args/prefix; "
        "SHA-512 collision-freeness (model de-duplicates on content). Strategies without a concrete model drive the "
        "model driver through their recorded proposal list.",
@@ -31,7 +33,8 @@ CHECKS = {
        "writes the file itself and raises before any candidate was tested) is proved NOT restored "
        "(C02_abort_restores_unrestricted_refuted); C02_minimize_like_restores proves it unreachable for minimize and "
        "minimize-collapse-brace (the only shipped strategy that writes the file itself). Correspondence: "
-       "aborts with 6 exception classes at every test index of explored runs.",
+       "aborts with 6 exception classes at every test index of explored runs; real `python -m lithium` children "
+       "killed with SIGKILL; C02_session_abort_restores covers a re-used Lithium object.",
   note=TB + "Durability of already-written temp files under SIGKILL and the atomicity of writes are OS behaviour the model "
        "assumes (partial for the kill half); cleanup() itself raising is outside the property.",
   tech="Coq proof (driver-loop invariant incl. finally/hooks/temp-dir) + trace correspondence with injected exceptions",
@@ -57,8 +60,10 @@ CHECKS = {
   text="C11_rejected_original / C11_nothing_to_reduce / C11_status / C11_check_only are Coq theorems over the generic "
        "driver model for every strategy and verdict function: a rejected original means exactly one test, no write, "
        "non-zero status; status 0 iff a later candidate was accepted (or nothing to reduce); check-only runs one "
-       "test and never writes. Tied to the code by trace correspondence including write events observed with an "
-       "audit hook.",
+       "test and never writes. C11_session_* prove the same for a following run on a re-used Lithium object "
+       "(every previous world) and prove that WITHOUT the per-run reset of the written flag they fail "
+       "(C11_session_without_reset_refuted / _clobbers: defect b8a6434). Tied to the code by trace correspondence "
+       "including write events observed with an audit hook, and by two-run sessions on one object.",
   note=TB + "Write detection on the implementation relies on CPython audit events for open/rename/remove on the testcase path.",
   tech="Coq proof (case analysis + trace invariant) + trace correspondence with write observation",
   ref="4/C11"),
@@ -126,14 +131,16 @@ CHECKS = {
        "the run neither exhausts fuel nor fails internally (balanced's assert, index errors, the bounded skip loop are proved "
        "unreachable) and performs at most (n+1)(n+ceil(log2 n)+2)+1 tests (potential-function proofs). C09_collapse_line proves the "
        "bound end to end for minimize-collapse-brace on every file loaded in line mode (the atoms stay lines, so the re-split never "
-       "adds atoms). The rewriting strategies: only their OUTER loops are modelled over an abstract pass "
-       "(Rewriters.v): C09_replace_properties_partial bounds the tests RELATIVE to two interface facts about the pass (monitored, not "
-       "proved of the code); C09_replace_arguments_refuted proves the outer loop of replace-arguments unbounded, and the concrete replay on "
-       "the implementation is a known finding. Tie: trace correspondence incl. "
-       "worst-case search by DFS and adversarial long inputs.",
-  note=TB + "Partial: replace-properties-by-globals / replace-arguments-by-globals have no Coq model of their passes (outer loops only; the bound "
-       "is explored with a test cap); collapse-brace end to end is proved for the line splitter only (other splitters: side condition post_ok, explored).",
-  tech="Coq proof (potential functions) for 4 chunk strategies + capped exploration for the 2 rewriters",
+       "adds atoms). replace-properties-by-globals has a CONCRETE model of its pass (ReplaceProps.v: both regular expressions as byte "
+       "scanners, the words dictionary, chunk grouping, substitution): C09_replace_properties / C09_replace_properties_square prove no fuel "
+       "exhaustion, no internal error and at most 1 + floor(B/2)*(log2 c0 + 2 + B) <= (B+2)^2 tests for every verdict function, with no "
+       "interface assumption (the older C09_replace_properties_partial over an abstract pass is kept). "
+       "C09_replace_arguments_refuted proves the outer loop of replace-arguments unbounded, and the concrete replay on "
+       "the implementation is a known finding. Tie: trace correspondence incl. worst-case search by DFS, adversarial long inputs, the "
+       "concrete replace-properties model on all five splitters, and the scanners against CPython's re.",
+  note=TB + "Partial: replace-arguments-by-globals has no Coq model of its pass (outer loop only; it violates the property: known finding); "
+       "collapse-brace end to end is proved for the line splitter only (other splitters: side condition post_ok, explored).",
+  tech="Coq proof (potential functions) for 4 chunk strategies and replace-properties + capped exploration for replace-arguments",
   ref="4/C09"),
  "C13": dict(
   text="C13_around and C13_balanced: Coq theorems over the concrete models of the two pair strategies: with a deterministic test, chunk "
@@ -197,7 +204,8 @@ CHECKS = {
   text="C20_lowest_free, C20_concurrent (EVERY schedule of k runs: distinct fresh directories, nothing pre-existing touched), "
        "C20_concurrent_progress, C20_fault_stops, C20_terminates: Coq theorems over an atomic-mkdir model whose caught exception class is "
        "pinned to the source. Tie: the real create_temp_dir over a stubbed pathlib/os layer for every subset of tmp1..5 x fault, every "
-       "interleaving of 2-3 runs at exists()/mkdir() granularity, the real file system, and 2-16 racing processes.",
+       "interleaving of 2-3 runs at exists()/mkdir() granularity, the real file system, 2-16 racing processes, and three "
+       "main() runs in one directory (two on the same Lithium object).",
   note=TB + "Atomicity of mkdir(2) and EEXIST for existing names of any kind are OS behaviour (assumed).",
   tech="Coq proof over all schedules of an atomic-mkdir model + stubbed/real-FS/racing-process correspondence",
   ref="4/C20"),
